@@ -8,9 +8,10 @@ CONSTANTS
   Runes <- MCRunes
   RErrs = {"EOF", "panic"}
   WErrs = {"nil", "boom", "panic"}
+  RunLens = {}
   MaxLen = 5
 CONSTRAINT Bound
 INVARIANTS TypeOK PrevOK CleanNoUnread
-PROPERTIES WritesAppend WriteRuneSound ReadsConsume UnreadRestores QueriesPure PanicsKeepData WriteToDrains ReWriteExact PokeExact PipeMoves
+PROPERTIES WritesAppend WriteRuneSound ReadsConsume UnreadRestores QueriesPure PanicsKeepData WriteToDrains ReWriteExact PokeExact PipeMoves RunReads
 VIEW View
 CHECK_DEADLOCK FALSE
